@@ -2,6 +2,7 @@
 """Run every built check against every seeded defect (patch applied to /repo, reverted afterwards).
 usage: seed_matrix.py [ids...]   -> writes /verif/seeded/MATRIX.json and prints a table."""
 import sys, os, subprocess, json, glob
+REPO = os.environ.get("REPO", "/repo")
 ENV = dict(os.environ, GOFLAGS="", GOPROXY="off", GOSUMDB="off", GOTOOLCHAIN="local"); ENV.pop("GOWORK", None)
 def sh(cmd, cwd=None):
     p = subprocess.run(cmd, shell=True, cwd=cwd, env=ENV, capture_output=True, text=True)
@@ -9,13 +10,13 @@ def sh(cmd, cwd=None):
 props = [l.split('"')[1] for l in subprocess.run("grep -ho 'register(\"C[0-9]*\"' /verif/checker/*.go", shell=True, capture_output=True, text=True).stdout.split()]
 props = sorted(set(props))
 ids = sys.argv[1:] or sorted(os.path.basename(d) for d in glob.glob("/verif/seeded/C*"))
-rc, out = sh("git status --porcelain --untracked-files=no", cwd="/repo")
+rc, out = sh("git status --porcelain --untracked-files=no", cwd=REPO)
 if out.strip(): print("REPO DIRTY"); sys.exit(2)
 sh("/verif/check C14 quick >/dev/null")  # make sure the binary is built
 mp = "/verif/seeded/MATRIX.json"
 matrix = json.load(open(mp)) if os.path.exists(mp) else {}
 def run_multi():
-    rc, out = sh(f"/verif/bin/mcapvet multi {','.join(props)} --repo /repo --verif /verif", cwd="/verif")
+    rc, out = sh(f"/verif/bin/mcapvet multi {','.join(props)} --repo {REPO} --verif /verif", cwd="/verif")
     res = {}
     for l in out.splitlines():
         if l.startswith("MULTI {"):
@@ -29,13 +30,13 @@ print("unchanged tree:", "all quiet" if not bad else f"NOT QUIET: {bad}")
 for sid in ids:
     d = f"/verif/seeded/{sid}"
     try:
-        rc, out = sh(f"git apply --3way {d}/patch.diff", cwd="/repo")
+        rc, out = sh(f"git apply --3way {d}/patch.diff", cwd=REPO)
         if rc != 0:
             print(sid, "PATCH DOES NOT APPLY"); continue
-        sh("git reset -q", cwd="/repo")
+        sh("git reset -q", cwd=REPO)
         res = run_multi()
     finally:
-        sh("git reset -q --hard HEAD", cwd="/repo")
+        sh("git reset -q --hard HEAD", cwd=REPO)
     own = sid.split("-")[0]
     fired = sorted(p for p, v in res.items() if p != "_error" and v["exit"] == 1)
     und = sorted(p for p, v in res.items() if p != "_error" and v["exit"] == 2)
